@@ -42,6 +42,9 @@ const SHAPES: &[(&str, &[&str])] = &[
     ("frob", &["{NUMBER:a} frob {NUMBER:b}"]),
     ("glorp", &["glorp {PERCENT:p} glorp", "{PERCENT:p} glorp glorp"]),
     ("snarf", &["{NUMBER:n} {TEXT:coin:snarf}"]),
+    // both patterns match every "x wug y", with the fields bound the other way round: the rule may
+    // decline the first binding and accept the second
+    ("wug", &["{NUMBER:a} wug {NUMBER:b}", "{NUMBER:b} wug {NUMBER:a}"]),
 ];
 
 fn shape_of(spec: &RuleSpec) -> Option<usize> {
@@ -57,9 +60,10 @@ fn gen_rule(r: &mut Rng, id: u32, rated: &[String]) -> RuleSpec {
         2 => if r.chance(1, 2) { ResultSpec::Echo { field: "m".into() } } else { ResultSpec::Money { amount: (1 + r.below(500)) as f64, code: r.pick(rated).clone() } },
         3 => ResultSpec::NumberTimes { field: if r.chance(1, 2) { "a".into() } else { "b".into() }, k: (2 + r.below(7)) as f64 },
         4 => if r.chance(1, 2) { ResultSpec::DurationSecs(60 * (1 + r.below(1000)) as i64) } else { ResultSpec::Percent((1 + r.below(99)) as f64) },
+        6 => ResultSpec::NumberTimes { field: if r.chance(1, 2) { "a".into() } else { "b".into() }, k: (2 + r.below(7)) as f64 },
         _ => ResultSpec::Money { amount: (1 + r.below(500)) as f64, code: r.pick(rated).clone() },
     };
-    RuleSpec { id, name: format!("rule{}", r.below(5)), patterns: pats.iter().map(|s| s.to_string()).collect(), result, decline_num: *r.pick(&[0u32, 0, 1, 2, 4]), decline_den: 4, unwind_den: 0 }
+    RuleSpec { id, name: format!("rule{}", r.below(5)), patterns: pats.iter().map(|s| s.to_string()).collect(), result, decline_num: if k == 6 { *r.pick(&[1u32, 2, 2, 3]) } else { *r.pick(&[0u32, 0, 1, 2, 4]) }, decline_den: 4, unwind_den: 0 }
 }
 
 /// a probe line for shape k: (line, matches?)
@@ -72,6 +76,7 @@ fn gen_probe(r: &mut Rng, k: usize) -> (String, bool) {
         2 => match r.below(3) { 0 => (format!("{} usd quux", m), true), 1 => (format!("${} quux", m), true), _ => (format!("{} quux", m), false) },
         3 => match r.below(3) { 0 | 1 => (format!("{} frob {}", n, m), true), _ => (format!("{} frob apple", n), false) },
         4 => match r.below(3) { 0 => (format!("glorp {}% glorp", n), true), 1 => (format!("{}% glorp glorp", n), true), _ => (format!("glorp {} glorp", n), false) },
+        6 => match r.below(4) { 0 => (format!("{} wug apple", n), false), _ => (format!("{} wug {}", n, m), true) },
         _ => match r.below(3) { 0 | 1 => (format!("{} snarf", n), true), _ => (format!("{} snarfx", n), false) },
     }
 }
@@ -88,7 +93,10 @@ fn gen_item(r: &mut Rng, fam: &str, idx: usize) -> TypeItemSpec {
     let up = *r.pick(&[2u32, 3, 4, 5, 10]);
     let down = *r.pick(&[2u32, 3, 4, 5, 10]);
     let unit = unit_name(fam, idx);
-    TypeItemSpec { family: fam.to_string(), index: idx, format: format!("{{value}} {}", unit), parse: vec![format!("{{NUMBER:value}} {{TEXT:type:{}}}", unit)], upgrade: format!("{{value}} / {}", up), downgrade: format!("{{value}} * {}", down), names: vec![unit] }
+    // a second name that other families use too (at other indices): a conversion by that name must stay
+    // inside the source's own family
+    let shared = format!("shr{}", (b'a' + r.below(3) as u8) as char);
+    TypeItemSpec { family: fam.to_string(), index: idx, format: format!("{{value}} {}", unit), parse: vec![format!("{{NUMBER:value}} {{TEXT:type:{}}}", unit)], upgrade: format!("{{value}} / {}", up), downgrade: format!("{{value}} * {}", down), names: vec![unit, shared] }
 }
 
 fn code_factor(code: &str) -> Option<(char, f64)> {
@@ -212,7 +220,8 @@ impl Check for C18 {
                         let (fam, idxs) = *r.pick(&with_items);
                         let a = *r.pick(idxs);
                         let b = *r.pick(idxs);
-                        format!("{} {} {} {}", 3600 * (1 + r.below(50)), unit_name(fam, a), r.pick(&["to", "in", "as", "into"]), unit_name(fam, b))
+                        let target = if r.chance(1, 4) { format!("shr{}", (b'a' + r.below(3) as u8) as char) } else { unit_name(fam, b) };
+                        format!("{} {} {} {}", 3600 * (1 + r.below(50)), unit_name(fam, a), r.pick(&["to", "in", "as", "into"]), target)
                     } else {
                         let fam = *r.pick(FAMILIES);
                         format!("{} {} {} {}", 3600 * (1 + r.below(50)), unit_name(fam, r.usize(5)), r.pick(&["to", "in", "as", "into"]), unit_name(fam, r.usize(5)))
@@ -242,7 +251,7 @@ impl Check for C18 {
         let mut type_history: Vec<AdminOp> = Vec::new();
         // fixed sentinel probes for "rejected calls change nothing"
         let sentinels: Vec<(String, String)> = vec![
-            ("en".into(), "5 zork".into()), ("en".into(), "blip apple".into()), ("en".into(), "7 usd quux".into()), ("en".into(), "2 frob 3".into()), ("en".into(), "4 snarf".into()),
+            ("en".into(), "5 zork".into()), ("en".into(), "blip apple".into()), ("en".into(), "7 usd quux".into()), ("en".into(), "2 frob 3".into()), ("en".into(), "4 snarf".into()), ("en".into(), "6 wug 7".into()),
             ("en".into(), format!("7200 {} to {}", unit_name("famx", 3), unit_name("famx", 1))), ("en".into(), format!("7200 {} to {}", unit_name("famy", 0), unit_name("famy", 2))), ("tr".into(), "5 zork".into()),
         ];
 
@@ -294,17 +303,25 @@ impl Check for C18 {
                     }
                     let slot = match o.lines().and_then(|l| l.first()) { Some(s) => s.slot.clone(), None => continue };
                     // family conversion probe?
-                    if let Some((v, fam, s, t)) = parse_conv(&line) {
+                    if let Some((v, fam, s, target)) = parse_conv(&line) {
                         // the conversion connectives (to/in/as/into) exist in the English tables only
                         if let Some(items) = l.cfg.families.get(&fam).filter(|_| lang == "en") {
-                            if let Some(exp) = chain_model(items, v, s, t) {
-                                rep.judged += 1;
-                                rep.count("probe.chain_conversion");
-                                let ok = matches!(slot.val(), Some(Val::Unit { v: got, group, index, .. }) if got.0 == exp && *group == fam && *index == t);
-                                if !ok {
-                                    rep.violate("O-chain", format!("family-chain:{}", if s < t { "up" } else if s > t { "down" } else { "same" }), ei, format!("{:?}: declared chain of family {} gives {} at index {}, calculator gave {}", line, fam, exp, t, slot.short()));
+                            // a target given by a name several families share: the item of the source's own family
+                            // (judged when exactly one item of that family carries the name)
+                            let t = match &target {
+                                Target::Index(t) => Some(*t),
+                                Target::Shared(name) => { let c: Vec<usize> = items.iter().filter(|(_, it)| it.names.contains(name)).map(|(i, _)| *i).collect(); if c.len() == 1 && items.contains_key(&s) { rep.count("probe.shared_name_target"); Some(c[0]) } else { None } }
+                            };
+                            if let Some(t) = t {
+                                if let Some(exp) = chain_model(items, v, s, t) {
+                                    rep.judged += 1;
+                                    rep.count("probe.chain_conversion");
+                                    let ok = matches!(slot.val(), Some(Val::Unit { v: got, group, index, .. }) if got.0 == exp && *group == fam && *index == t);
+                                    if !ok {
+                                        rep.violate("O-chain", format!("family-chain:{}", if s < t { "up" } else if s > t { "down" } else { "same" }), ei, format!("{:?}: declared chain of family {} gives {} at index {}, calculator gave {}", line, fam, exp, t, slot.short()));
+                                    }
+                                    continue;
                                 }
-                                continue;
                             }
                         }
                         rep.unjudged += 1;
@@ -313,7 +330,10 @@ impl Check for C18 {
                     // rule probe: expected call sequence
                     let kw = SHAPES.iter().position(|(k, _)| line.split(|c: char| !c.is_alphabetic()).any(|w| w == *k));
                     let live: Vec<RuleSpec> = match kw { Some(k) => l.cfg.rules.get(lang).map(|v| v.iter().filter(|s| shape_of(s) == Some(k)).cloned().collect()).unwrap_or_default(), None => vec![] };
-                    let fields = kw.and_then(|k| expected_fields(k, &line, &l));
+                    let fields: Option<Vec<Vec<(String, Val)>>> = kw.and_then(|k| expected_fields(k, &line, &l)).map(|f| {
+                        // shape "wug": the second pattern binds the same two numbers the other way round
+                        if kw == Some(6) { let swapped = vec![(f[0].0.clone(), f[1].1.clone()), (f[1].0.clone(), f[0].1.clone())]; vec![f, swapped] } else { vec![f] }
+                    });
                     rep.judged += 1;
                     let (po, _) = p.execute(lang, &line, &ev.clock);
                     let pslot = po.lines().and_then(|l| l.first()).map(|s| s.slot.clone());
@@ -326,16 +346,22 @@ impl Check for C18 {
                                 rep.violate("O-effect", "near-miss-differs".into(), ei, format!("line {:?} matches no registered pattern but evaluates to {} instead of {}", line, slot.short(), pslot.map(|s| s.short()).unwrap_or_default()));
                             }
                         }
-                        Some(fields) => {
-                            // walk the live rules of this shape in registration order
+                        Some(bindings) => {
+                            // walk the live rules of this shape in registration order; within a rule every pattern
+                            // that matches is tried in order until the rule accepts one binding
+                            let digests: Vec<(Vec<(String, Val)>, u64)> = bindings.iter().map(|f| { let mut f = f.clone(); f.sort_by(|a, b| a.0.cmp(&b.0)); let d = digest_vals(&f); (f, d) }).collect();
                             let mut exp_calls: Vec<(u32, Decision)> = Vec::new();
-                            let mut accepted: Option<RuleSpec> = None;
-                            let digest = { let mut f = fields.clone(); f.sort_by(|a, b| a.0.cmp(&b.0)); let d = digest_vals(&f); (f, d) };
-                            for spec in live.iter() {
-                                let d = crate::rules::decide(spec, trace.salt, digest.1);
-                                exp_calls.push((spec.id, d));
-                                if d == Decision::Accept { accepted = Some(spec.clone()); break; }
+                            let mut exp_fields: Vec<Vec<(String, Val)>> = Vec::new();
+                            let mut accepted: Option<(RuleSpec, Vec<(String, Val)>)> = None;
+                            'rules: for spec in live.iter() {
+                                for (f, d) in digests.iter() {
+                                    let dec = crate::rules::decide(spec, trace.salt, *d);
+                                    exp_calls.push((spec.id, dec));
+                                    exp_fields.push(f.clone());
+                                    if dec == Decision::Accept { accepted = Some((spec.clone(), f.clone())); break 'rules; }
+                                }
                             }
+                            if digests.len() > 1 && exp_calls.len() > 1 && accepted.is_some() { rep.count("probe.second_binding_reached"); }
                             let got_calls: Vec<(u32, Decision)> = records.iter().map(|r| (r.rule_id, r.decision)).collect();
                             // after an accept the rewrite loop runs again and may call later rules on the
                             // rewritten line; only the prefix up to the first accept is specified
@@ -344,11 +370,14 @@ impl Check for C18 {
                                 rep.violate("O-effect", "call-sequence".into(), ei, format!("line {:?} (lang {}): live rules of this shape in registration order predict calls {:?}, observed {:?}", line, lang, exp_calls, got_calls));
                                 continue;
                             }
-                            for rcd in records.iter().take(got_prefix.len()) {
-                                if rcd.fields != digest.0 {
-                                    rep.violate("O-effect", "field-binding".into(), ei, format!("line {:?}: rule {} received fields {:?}, expected {:?}", line, rcd.rule_id, rcd.fields, digest.0));
+                            for (rcd, ef) in records.iter().take(got_prefix.len()).zip(exp_fields.iter()) {
+                                if rcd.fields != *ef {
+                                    rep.violate("O-effect", "field-binding".into(), ei, format!("line {:?}: rule {} received fields {:?}, expected {:?}", line, rcd.rule_id, rcd.fields, ef));
                                 }
                             }
+                            let accepted_fields = accepted.as_ref().map(|(_, f)| f.clone()).unwrap_or_default();
+                            let accepted = accepted.map(|(s, _)| s);
+                            let digest = (accepted_fields, 0u64);
                             match accepted {
                                 Some(spec) => {
                                     if let Some(exp) = expected_result(&spec.result, &digest.0) {
@@ -409,8 +438,10 @@ fn eval_set(w: &World, probes: &[(String, String)], clk: &ClockScript) -> Vec<Ca
     probes.iter().map(|(lang, line)| w.execute(lang, line, clk).0).collect()
 }
 
-/// "N famXa to famXb" -> (N, family, index a, index b)
-fn parse_conv(line: &str) -> Option<(f64, String, usize, usize)> {
+enum Target { Index(usize), Shared(String) }
+
+/// "N famXa to famXb" / "N famXa to shrb" -> (N, family, index a, target)
+fn parse_conv(line: &str) -> Option<(f64, String, usize, Target)> {
     let parts: Vec<&str> = line.split(' ').collect();
     if parts.len() != 4 { return None; }
     let v: f64 = parts[0].parse().ok()?;
@@ -424,9 +455,10 @@ fn parse_conv(line: &str) -> Option<(f64, String, usize, usize)> {
         None
     };
     let (fa, a) = f(parts[1])?;
+    if parts[3].starts_with("shr") && parts[3].len() == 4 { return Some((v, fa, a, Target::Shared(parts[3].to_string()))); }
     let (fb, b) = f(parts[3])?;
     if fa != fb { return None; }
-    Some((v, fa, a, b))
+    Some((v, fa, a, Target::Index(b)))
 }
 
 /// the fields a rule of shape k must receive for this line (None = the line does not match the shape)
@@ -455,6 +487,7 @@ fn expected_fields(k: usize, line: &str, _l: &World) -> Option<Vec<(String, Val)
             else if words[1] == "glorp" && words[2] == "glorp" { pct(words[0]).map(|v| vec![("p".to_string(), Val::Pct(F(v)))]) }
             else { None }
         }
+        6 => if words.len() == 3 && words[1] == "wug" { match (num(words[0]), num(words[2])) { (Some(a), Some(b)) => Some(vec![("a".to_string(), n(a)), ("b".to_string(), n(b))]), _ => None } } else { None },
         _ => if words.len() == 2 && words[1] == "snarf" { num(words[0]).map(|v| vec![("coin".to_string(), Val::Other("Text(snarf)".to_string())), ("n".to_string(), n(v))]) } else { None },
     }
 }
